@@ -608,6 +608,10 @@ def fixed_shapes():
         ('struct', False, (I('le::U16'), I('le::U32'), V(U8, 'le::U16')), 'tp'),
         ('struct', False, (I('be::U16'), BOOL, FS('le::U16')), 'tp'),
         V(U8, 'le::U64'), FS('be::U64'), FX(V(U8, 'u8'), 'le::U64'), V(I('le::U16'), 'be::U64'),
+        # portable enums with a FlexVec variant whose offset type is larger than its alignment (OFFSET_SIZE > ALIGN) next
+        # to smaller variants: an assignment that is one byte short must be refused before the tag is written
+        ('enum', False, 'u8', 0, ((), (FX(V(U8, 'u8'), 'le::U16'),), (I('le::U32'), FX(V(U8, 'u8'), 'le::U16'))), 'np'),
+        ('enum', False, 'u8', 1, ((FX(U8, 'be::U32'),), (), (BOOL, FX(FS('u8'), 'le::U16'))), 'tp'),
         # FlexVecs of FlexVecs (an item that grows and shrinks in place), also as the tail of a struct
         FX(FX(U32, 'u32'), 'u32'), FX(FX(U8, 'u8'), 'u16'), FX(FX(V(U8, 'u8'), 'u8'), 'u8'), US(U16, FX(FX(U8, 'u8'), 'u8')),
         # the #[default] unit variant declared last and the only smallest one; wide tags
